@@ -8,6 +8,7 @@ import EchVerif.Resolve.Resolve
 import EchVerif.Dial.Config
 import EchVerif.Ctx.Lts
 import EchVerif.Publish
+import EchVerif.Transport
 /-
   echdrv: line protocol driver.  One op per input line, one answer per output line.
   Imports no Mathlib (so that it links).  Each handler lives next to the model it drives.
@@ -362,6 +363,48 @@ def readObs (s : String) : Option Ctx.Obs :=
 
 def dialOp (toks : List String) : Option String :=
   match toks with
+  | ["plan", scheme, urlHost, split, hostHdr, hasH3, port, addr, https, add] => do
+    let r ← RT.readResult port addr https add
+    let sp ← (if split = "-" then some none else match split.splitOn "," with
+      | [h, p] => do some (some (← unhex h, ← unhex p))
+      | _ => none)
+    let i : Transport.In := { scheme := ← unhex scheme, urlHost := ← unhex urlHost, split := sp, hostHdr := ← unhex hostHdr,
+                              hasH3 := hasH3 = "1", https := r.https }
+    let hp := Transport.hostPort i
+    let fr : Resolve.Result := { r with https := Transport.filtered i }
+    some s!"scheme={hex (Transport.scheme' i)} key={hex (Transport.poolKey hp.2 (Transport.scheme' i) hp.1)} host={hex (Transport.hostHeader i)} tls={hex hp.1} h3={if Transport.useH3 i then 1 else 0} targets={RT.showTargets (Resolve.targets fr .tcp)}"
+  | ["plan-dialled", scheme, urlHost, split, hostHdr, hasH3, port, addr, https, add, dialled] => do
+    let r ← RT.readResult port addr https add
+    let sp ← (if split = "-" then some none else match split.splitOn "," with
+      | [h, p] => do some (some (← unhex h, ← unhex p))
+      | _ => none)
+    let i : Transport.In := { scheme := ← unhex scheme, urlHost := ← unhex urlHost, split := sp, hostHdr := ← unhex hostHdr,
+                              hasH3 := hasH3 = "1", https := r.https }
+    let fr : Resolve.Result := { r with https := Transport.filtered i }
+    let ipS (b : Bytes) : String := match b with
+      | [a, b, c, d] => s!"{a.toNat}.{b.toNat}.{c.toNat}.{d.toNat}"
+      | _ => "?"
+    let want := ",".intercalate ((Resolve.targets fr .tcp).map fun t => s!"{ipS t.ip}:{t.port}")
+    let db ← (if dialled = "_" then some [] else unhex dialled)
+    let got := (String.fromUTF8? (ByteArray.mk db.toArray)).getD "?"
+    some (if want = got then "match" else s!"differ model {want} observed {got}")
+  -- observations of one request ('?' = not observable on that path) checked against the plan
+  | ["plan-check", scheme, urlHost, split, hostHdr, hasH3, port, addr, https, add, oh3, oscheme, okey, ohost, otls, otargets, oplain] => do
+    let r ← RT.readResult port addr https add
+    let sp ← (if split = "-" then some none else match split.splitOn "," with
+      | [h, p] => do some (some (← unhex h, ← unhex p))
+      | _ => none)
+    let i : Transport.In := { scheme := ← unhex scheme, urlHost := ← unhex urlHost, split := sp, hostHdr := ← unhex hostHdr,
+                              hasH3 := hasH3 = "1", https := r.https }
+    let hp := Transport.hostPort i
+    let fr : Resolve.Result := { r with https := Transport.filtered i }
+    let chk (name obs want : String) : Option String := if obs = "?" ∨ obs = want then none else some s!"{name}: model {want} observed {obs}"
+    let plain := Transport.scheme' i = Transport.bHttp
+    let problems := [chk "h3" oh3 (if Transport.useH3 i then "1" else "0"), chk "scheme" oscheme (hex (Transport.scheme' i)),
+      chk "key" okey (hex (Transport.poolKey hp.2 (Transport.scheme' i) hp.1)), chk "host" ohost (hex (Transport.hostHeader i)),
+      chk "tls" otls (hex hp.1), chk "targets" otargets (RT.showTargets (Resolve.targets fr .tcp)),
+      chk "plaintext-refused" oplain (if plain then "1" else "0")].filterMap id
+    some (if problems.isEmpty then "match" else "differ " ++ "; ".intercalate problems)
   | ["ctx-trace", tr] => do
     let obs ← (tr.splitOn ",").mapM readObs
     some (if Ctx.accepts obs then "accept" else "reject")
